@@ -1,7 +1,3 @@
 -- Root of the `DvidModel` library: every model, lemma and property module.
-import DvidModel.Model.Bytes
-import DvidModel.Model.KeyLayout
-import DvidModel.Model.Key
-import DvidModel.Lemmas.Bytes
-import DvidModel.Lemmas.Key
 import DvidModel.Props.C06
+import DvidModel.Props.C15
